@@ -123,3 +123,64 @@ impl<W: Write> crate::Output for Output<W> {
 		self.0.flush()
 	}
 }
+
+/// Verification hooks: thin forwarding wrappers over the private encoding and
+/// chunker modules.
+#[cfg(feature = "verif")]
+pub(crate) mod verif {
+	use std::io::{self, BufRead, Read};
+
+	use super::chunker::{self, Chunker};
+	use super::encoding::{Encoder, Encoding};
+
+	fn encoding_code(encoding: &Encoding) -> u8 {
+		match encoding {
+			Encoding::Utf8 => 0,
+			Encoding::Utf16Big => 1,
+			Encoding::Utf32Big => 2,
+			Encoding::Utf16Little => 3,
+			Encoding::Utf32Little => 4,
+		}
+	}
+
+	fn encoding_from_code(code: u8) -> Encoding {
+		match code {
+			1 => Encoding::Utf16Big,
+			2 => Encoding::Utf32Big,
+			3 => Encoding::Utf16Little,
+			4 => Encoding::Utf32Little,
+			_ => Encoding::Utf8,
+		}
+	}
+
+	pub(crate) const DETECT_LEN: usize = Encoding::DETECT_LEN;
+
+	pub(crate) fn encoding_detect(prefix: &[u8]) -> u8 {
+		encoding_code(&Encoding::detect(prefix))
+	}
+
+	pub(crate) fn encoder_new<'a>(reader: Box<dyn BufRead + 'a>, code: u8) -> Box<dyn Read + 'a> {
+		Box::new(Encoder::new(reader, encoding_from_code(code)))
+	}
+
+	pub(crate) fn encoder_from_reader<'a>(
+		reader: Box<dyn BufRead + 'a>,
+	) -> io::Result<Box<dyn Read + 'a>> {
+		Ok(Box::new(Encoder::from_reader(reader)?))
+	}
+
+	pub(crate) fn chunker<'a>(
+		reader: Box<dyn Read + 'a>,
+	) -> Box<dyn Iterator<Item = io::Result<(String, bool)>> + 'a> {
+		Box::new(
+			Chunker::new(reader)
+				.map(|doc| doc.map(|doc| (doc.content().to_owned(), doc.is_collection()))),
+		)
+	}
+
+	pub(crate) fn events<'a>(
+		reader: Box<dyn Read + 'a>,
+	) -> (Vec<(u32, u64, u64)>, Option<io::Error>) {
+		chunker::verif_events(reader)
+	}
+}
